@@ -299,7 +299,26 @@ func c15Run(b *c15Box, hist []UOp) (sig, text string) {
 	return "", ""
 }
 
-func c15Alphabet(fids []p9p.Fid, maxList int, names []string) []UOp {
+// c15Deep: rename / create / mkdir / walk targets that try to leave the
+// export, spelled with either separator and mixed. level 2: everything;
+// level 1: the slash spellings plus two backslash ones; level 0: three
+// representatives (for the innermost position of three-request histories).
+func c15Deep(level int) []string {
+	deep := []string{"../../x", "../../../../../../tmp/x", "/abs", "sub/../../y", "../export-evil/inner/z",
+		"/../planted", "/../outside.txt", "/../export-evil/secret.txt", "/sub/../../planted", "/./../planted", "/sub/deep/../../../export-evil/inner/p", "//../planted"}
+	switch level {
+	case 0:
+		return []string{"../../x", "/../planted", "..\\planted"}
+	case 1:
+		return append(deep, "..\\planted", "sub\\..\\..\\planted")
+	}
+	for _, n := range append([]string{}, deep...) {
+		deep = append(deep, strings.ReplaceAll(n, "/", "\\"), strings.Replace(n, "/", "\\", 1))
+	}
+	return append(deep, "..\\planted", "..\\..\\planted", "sub\\..\\..\\planted", "x\\..\\..\\..\\planted")
+}
+
+func c15Alphabet(fids []p9p.Fid, maxList int, names []string, deep []string) []UOp {
 	var ops []UOp
 	for _, f := range fids {
 		var rec func(cur []string)
@@ -318,13 +337,6 @@ func c15Alphabet(fids []p9p.Fid, maxList int, names []string) []UOp {
 		for _, n := range names {
 			ops = append(ops, UOp{Kind: "create", Fid: f, Name: n}, UOp{Kind: "mkdir", Fid: f, Name: n}, UOp{Kind: "rename", Fid: f, Name: n})
 		}
-		deep := []string{"../../x", "../../../../../../tmp/x", "/abs", "sub/../../y", "../export-evil/inner/z",
-			"/../planted", "/../outside.txt", "/../export-evil/secret.txt", "/sub/../../planted", "/./../planted", "/sub/deep/../../../export-evil/inner/p", "//../planted"}
-		// the same targets spelled with the other separator, and mixed
-		for _, n := range append([]string{}, deep...) {
-			deep = append(deep, strings.ReplaceAll(n, "/", "\\"), strings.Replace(n, "/", "\\", 1))
-		}
-		deep = append(deep, "..\\planted", "..\\..\\planted", "sub\\..\\..\\planted", "x\\..\\..\\..\\planted")
 		for _, n := range deep {
 			ops = append(ops, UOp{Kind: "rename", Fid: f, Name: n}, UOp{Kind: "create", Fid: f, Name: n}, UOp{Kind: "mkdir", Fid: f, Name: n}, UOp{Kind: "walk", Fid: f, Names: []string{n}})
 		}
@@ -349,24 +361,25 @@ func c15(c *core.Ctx) {
 		if empty {
 			fids = []p9p.Fid{0}
 		}
-		first := c15Alphabet(fids, 3, c15Hostile)
+		first := c15Alphabet(fids, 3, c15Hostile, c15Deep(2))
 		if c.Quick() {
-			first = c15Alphabet(fids, 2, c15Hostile)
+			first = c15Alphabet(fids, 2, c15Hostile, c15Deep(2))
 		}
 		for _, o := range first {
 			jobs = append(jobs, job{empty, []UOp{o}})
 		}
-		second := c15Alphabet(fids, 1, c15Hostile)
-		tail := c15Alphabet(fids, 1, small)
+		second := c15Alphabet(fids, 1, c15Hostile, c15Deep(2))
+		tail := c15Alphabet(fids, 1, small, c15Deep(1))
+		tail3 := c15Alphabet(fids, 1, small, c15Deep(0))
 		for _, a := range second {
 			for _, b := range tail {
 				jobs = append(jobs, job{empty, []UOp{a, b}})
 			}
 		}
 		if !c.Quick() {
-			for _, a := range tail {
-				for _, b := range tail {
-					for _, d := range tail {
+			for _, a := range tail3 {
+				for _, b := range tail3 {
+					for _, d := range tail3 {
 						jobs = append(jobs, job{empty, []UOp{a, b, d}})
 					}
 				}
